@@ -450,10 +450,16 @@ Definition is_conn (e : accept_event) : bool := match e with AcConn => true | _ 
 
 (* when accept errors do not end the loop every connection is served, whatever
    happened to the attempts before it *)
-Lemma accept_loop_serves_all evs : accept_loop_gen false evs = map is_conn evs.
-Proof. induction evs as [|e t IH]; [reflexivity|]. destruct e; cbn [accept_loop_gen map is_conn]; rewrite IH; reflexivity. Qed.
+Lemma accept_loop_serves_all evs : accept_loop_gen false false evs = map is_conn evs.
+Proof. induction evs as [|e t IH]; [reflexivity|]. destruct e; cbn [accept_loop_gen map is_conn andb]; rewrite IH; reflexivity. Qed.
 
 (* ... and when they do, one aborted attempt leaves every later client unserved *)
-Lemma accept_loop_stopping_refuted :
-  accept_loop_gen true [AcConn; AcError 0; AcConn; AcConn] = [true; false; false; false].
-Proof. reflexivity. Qed.
+Lemma accept_loop_stopping_refuted inline :
+  accept_loop_gen true inline [AcConn; AcError 0; AcConn; AcConn] = [true; false; false; false].
+Proof. destruct inline; reflexivity. Qed.
+
+(* awaiting the stream's future in the accept loop: one peer that never finishes its
+   connection setup leaves every later client unserved *)
+Lemma accept_loop_inline_refuted stops :
+  accept_loop_gen stops true [AcConn; AcStalled; AcConn; AcConn] = [true; false; false; false].
+Proof. destruct stops; reflexivity. Qed.
